@@ -3,7 +3,7 @@
 From Coq Require Import NArith ZArith Arith List Bool Lia Permutation.
 From Coq Require Import ZifyBool ZifyN ZifyNat.
 From FF Require Import Lib.Word Gen.Consts_device_acpi_aml Gen.Consts_aml_tree Aml.Stream Aml.Lex
-  Aml.Tree Aml.TreeSpec Aml.TreeProofs Aml.Parser Aml.Grammar
+  Aml.Tree Aml.TreeSpec Aml.TreeProofs Aml.Parser Aml.Grammar Aml.LexRoundtrip
   Aml.ParserTotalBase Aml.ParserFragBase Aml.ParserFragFirst Aml.ParserFragF0 Aml.ParserFragF0Conn Aml.ParserFragF0Top
   Aml.ParserFragRose Aml.ParserFragF1 Aml.ParserFragF1First Aml.ParserFragF1Conn Aml.ParserFragF1Top
   Aml.View Aml.ParserFragView Aml.ParserFragF0View Aml.ParserFragF1View
@@ -82,36 +82,53 @@ Proof.
   apply pget_lt in Py. lia.
 Qed.
 
-Lemma keep_fold vh vtbl f known : forall ts es st b off,
-  Forall (Desc g pl) (keep vh vtbl b off ts) -> forallb titem_okb ts = true -> 6 <= b -> (6 <= length pl <= f + 2)%nat ->
-  fold_left (walkF t tables f known []) (map ridx (keep vh vtbl b off ts)) (es, st) = (es ++ vkeep ts, st).
+Lemma keep_fold vh vtbl f known data : nth_error tables (N.to_nat vtbl) = Some data -> forall ts es st b dpre dpost,
+  data = dpre ++ enc_titems ts ++ dpost ->
+  Forall (Desc g pl) (keep vh vtbl b (lenN dpre) ts) -> forallb titem_okb ts = true -> 6 <= b -> (6 <= length pl <= f + 2)%nat ->
+  fold_left (walkF t tables f known []) (map ridx (keep vh vtbl b (lenN dpre) ts)) (es, st) = (es ++ vkeep ts, st).
 Proof.
-  induction ts as [|x ts IH]; intros es st b off HD Hok Hb Hf.
+  intros Hnth. induction ts as [|x ts IH]; intros es st b dpre dpost Hdata HD Hok Hb Hf.
   - cbn [keep map fold_left vkeep flat_map]. rewrite app_nil_r. reflexivity.
   - cbn [forallb] in Hok. apply andb_prop in Hok. destruct Hok as [Hx Hok].
-    cbn [keep] in HD |- *. apply Forall_app in HD. destruct HD as [HDx HDr]. rewrite map_app, fold_left_app.
+    rewrite enc_titems_cons in Hdata.
+    assert (Hd' : data = (dpre ++ enc_titem x) ++ enc_titems ts ++ dpost) by (rewrite Hdata, <- !app_assoc; reflexivity).
+    assert (Ho' : lenN dpre + lenN (enc_titem x) = lenN (dpre ++ enc_titem x)) by (rewrite lenN_app; reflexivity).
+    cbn [keep] in HD |- *. rewrite Ho' in HD |- *. apply Forall_app in HD. destruct HD as [HDx HDr]. rewrite map_app, fold_left_app.
     destruct x as [it|k root d body].
-    + cbn [titem_okb] in Hx. rewrite <- lay2_single in HDx |- *.
-      rewrite (vspec_all t g pl H tables [it] vh vtbl f known [] es st b off HDx ltac:(cbn [forallb]; rewrite Hx; reflexivity) (lay2_fuel _ _ _ _ _ _ HDx Hb Hf)).
-      rewrite (IH _ st _ _ HDr Hok ltac:(lia) Hf). cbn [vkeep flat_map ventries]. rewrite app_nil_r, <- app_assoc. reflexivity.
-    + cbn [map fold_left]. rewrite (IH _ st _ _ HDr Hok ltac:(lia) Hf). reflexivity.
+    + cbn [titem_okb] in Hx. rewrite <- lay2_single in HDx |- *. cbn [enc_titem] in Hdata.
+      rewrite (vspec_all t g pl H tables [it] vh vtbl f known [] es st b (lenN dpre) data dpre (enc_titems ts ++ dpost) Hnth
+                 ltac:(rewrite Hdata; cbn [enc_items flat_map]; rewrite <- !app_assoc; reflexivity) eq_refl
+                 HDx ltac:(cbn [forallb]; rewrite Hx; reflexivity) (lay2_fuel _ _ _ _ _ _ HDx Hb Hf)).
+      rewrite (IH _ st _ _ dpost Hd' HDr Hok ltac:(lia) Hf). cbn [vkeep flat_map ventries]. rewrite app_nil_r, <- app_assoc. reflexivity.
+    + cbn [map fold_left]. rewrite (IH _ st _ _ dpost Hd' HDr Hok ltac:(lia) Hf). reflexivity.
 Qed.
 
-Lemma moved_fold vh vtbl f known d : forall ts es st b off,
-  Forall (Desc g pl) (moved vh vtbl b off ts d) -> forallb titem_okb ts = true -> 6 <= b -> (6 <= length pl <= f + 2)%nat ->
-  fold_left (walkF t tables f known [dseg d]) (map ridx (moved vh vtbl b off ts d)) (es, st) = (es ++ vmoved ts d, st).
+Lemma moved_fold vh vtbl f known d data : nth_error tables (N.to_nat vtbl) = Some data -> forall ts es st b dpre dpost,
+  data = dpre ++ enc_titems ts ++ dpost ->
+  Forall (Desc g pl) (moved vh vtbl b (lenN dpre) ts d) -> forallb titem_okb ts = true -> 6 <= b -> (6 <= length pl <= f + 2)%nat ->
+  fold_left (walkF t tables f known [dseg d]) (map ridx (moved vh vtbl b (lenN dpre) ts d)) (es, st) = (es ++ vmoved ts d, st).
 Proof.
-  induction ts as [|x ts IH]; intros es st b off HD Hok Hb Hf.
+  intros Hnth. induction ts as [|x ts IH]; intros es st b dpre dpost Hdata HD Hok Hb Hf.
   - cbn [moved map fold_left vmoved flat_map]. rewrite app_nil_r. reflexivity.
   - cbn [forallb] in Hok. apply andb_prop in Hok. destruct Hok as [Hx Hok].
-    cbn [moved] in HD |- *. apply Forall_app in HD. destruct HD as [HDx HDr]. rewrite map_app, fold_left_app.
+    rewrite enc_titems_cons in Hdata.
+    assert (Hd' : data = (dpre ++ enc_titem x) ++ enc_titems ts ++ dpost) by (rewrite Hdata, <- !app_assoc; reflexivity).
+    assert (Ho' : lenN dpre + lenN (enc_titem x) = lenN (dpre ++ enc_titem x)) by (rewrite lenN_app; reflexivity).
+    cbn [moved] in HD |- *. rewrite Ho' in HD |- *. apply Forall_app in HD. destruct HD as [HDx HDr]. rewrite map_app, fold_left_app.
     destruct x as [it|k root d' body].
-    + cbn [map fold_left]. rewrite (IH _ st _ _ HDr Hok ltac:(lia) Hf). reflexivity.
-    + cbn [titem_okb] in Hx. apply andb_prop in Hx. destruct Hx as [_ Hbody].
+    + cbn [map fold_left]. rewrite (IH _ st _ _ dpost Hd' HDr Hok ltac:(lia) Hf). reflexivity.
+    + cbn [titem_okb] in Hx. apply andb_prop in Hx. destruct Hx as [Hx Hbody]. apply andb_prop in Hx. destruct Hx as [_ Hpk]. apply pkglen_okb_adm in Hpk.
       cbn [vmoved flat_map]. fold (vmoved ts d). destruct (d' =? d).
-      * rewrite (vspec_all t g pl H tables body vh vtbl f known [dseg d] es st _ _ HDx Hbody (lay2_fuel _ _ _ _ _ _ HDx ltac:(lia) Hf)).
-        rewrite (IH _ st _ _ HDr Hok ltac:(lia) Hf). rewrite <- app_assoc. reflexivity.
-      * cbn [map fold_left]. rewrite (IH _ st _ _ HDr Hok ltac:(lia) Hf). reflexivity.
+      * cbn [enc_titem] in Hdata. unfold sc_body in Hdata, Hpk.
+        set (V := k + lenN (enc_name (sc_name root (dseg d')) ++ enc_items body)) in *.
+        assert (Eo : lenN dpre + 1 + k + sc_len root = lenN (dpre ++ enc_op OP_SCOPE ++ enc_pkglen k V ++ enc_name (sc_name root (dseg d')))).
+        { rewrite (lenN_app dpre), (lenN_app (enc_op _)), (lenN_app (enc_pkglen _ _)), (lenN_enc_pkglen _ _ Hpk), lenN_sc_name. change (lenN (enc_op OP_SCOPE)) with 1. lia. }
+        rewrite Eo in HDx |- *.
+        rewrite (vspec_all t g pl H tables body vh vtbl f known [dseg d] es st (b + 3) (lenN (dpre ++ enc_op OP_SCOPE ++ enc_pkglen k V ++ enc_name (sc_name root (dseg d')))) data
+                   (dpre ++ enc_op OP_SCOPE ++ enc_pkglen k V ++ enc_name (sc_name root (dseg d'))) (enc_titems ts ++ dpost) Hnth
+                   ltac:(rewrite Hdata, <- !app_assoc; reflexivity) eq_refl HDx Hbody (lay2_fuel _ _ _ _ _ _ HDx ltac:(lia) Hf)).
+        rewrite (IH _ st _ _ dpost Hd' HDr Hok ltac:(lia) Hf). rewrite <- app_assoc. reflexivity.
+      * cbn [map fold_left]. rewrite (IH _ st _ _ dpost Hd' HDr Hok ltac:(lia) Hf). reflexivity.
 Qed.
 
 Lemma dname_num d : 1 <= d <= 5 -> name_num (dname d) = dseg d /\ name_eqb (dname d) (0, 0, 0, 0) = false.
@@ -121,9 +138,11 @@ Proof.
 Qed.
 
 (** ---- the whole view ---- *)
-Theorem view_f3 ts : Desc g pl (root_tree3 ts) -> forallb titem_okb ts = true -> view t tables = view3 ts.
+Theorem view_f3 ts hdr : Desc g pl (root_tree3 ts) -> forallb titem_okb ts = true ->
+  tables = [hdr ++ enc_titems ts] -> lenN hdr = aml_sizeofSDTHeader -> view t tables = view3 ts.
 Proof.
-  intros HD Hok. unfold view. set (known := [] :: collect_known t (pool_fuel t) 0 []).
+  intros HD Hok Htb Hhdr.
+  assert (Hnth : nth_error tables (N.to_nat 0) = Some (hdr ++ enc_titems ts ++ [])) by (rewrite Htb, app_nil_r; reflexivity). unfold view. set (known := [] :: collect_known t (pool_fuel t) 0 []).
   unfold pool_fuel at 1. rewrite walk_S.
   destruct (Desc_inv _ _ _ _ _ HD) as (P0 & K0 & HDk). apply Forall_app in HDk. destruct HDk as [HDl HD2].
   assert (Hlen : (6 <= length pl <= length (t_pool t) + 2)%nat).
@@ -142,10 +161,12 @@ Proof.
     destruct (dname_num d Hd) as (En & Ez).
     apply (walkF_scope t tables _ known [] es [] d co); [exact Hco|rewrite (pay_op _ _ Epco); reflexivity|rewrite (pay_name _ _ Epco); exact Ez|].
     rewrite walk_S, Hco, Hkco, Kd, (pay_name _ _ Epco). cbn [dpay y_name app]. rewrite En.
-    rewrite (moved_fold 1 0 (length (t_pool t)) known d ts [] [] _ _ HDm Hok ltac:(lia) Hlen). reflexivity. }
+    rewrite <- Hhdr in HDm |- *.
+    rewrite (moved_fold 1 0 (length (t_pool t)) known d _ Hnth ts [] [] _ hdr [] eq_refl HDm Hok ltac:(lia) Hlen). reflexivity. }
   cbn [D0' map ridx fold_left].
   rewrite (Hleaf 1 []) by lia. rewrite (Hleaf 2) by lia. rewrite (Hleaf 3) by lia. rewrite (Hleaf 4) by lia. rewrite (Hleaf 5) by lia.
-  rewrite (keep_fold 1 0 (S (length (t_pool t))) known ts _ [] _ _ HD2 Hok ltac:(lia) ltac:(lia)).
+  rewrite <- Hhdr in HD2 |- *.
+  rewrite (keep_fold 1 0 (S (length (t_pool t))) known _ Hnth ts _ [] _ hdr [] eq_refl HD2 Hok ltac:(lia) ltac:(lia)).
   cbn [app anon map]. rewrite app_nil_r. unfold view3. rewrite <- !app_assoc. reflexivity.
 Qed.
 End ViewF3.
